@@ -6,6 +6,7 @@
 //! operation is split, which worker runs what, when a worker is preempted) is
 //! taken by a seeded simulator. See `sim`.
 
+pub mod clock;
 pub mod iter;
 pub mod sim;
 pub mod slice;
